@@ -1,9 +1,15 @@
 // C04: XML output is well formed and parses back to exactly the result tree.
 // Bounded EXHAUSTIVE enumeration (no sampling) of
-//   serializer {XalanXMLSerializerFactory product, legacy FormatterToXML, end-to-end through XalanTransformer}
-//   x encoding x XML version x item kind x character item (x second adjacent item, thorough)
-//   x offset of the item relative to the 512-unit writer buffers (512*m + d, m in {1,2}, d in -8..+8).
+//   serializer {XalanXMLSerializerFactory product, legacy FormatterToXML} driven directly with SAX events,
+//   encoding {UTF-8, UTF-16, ISO-8859-1, US-ASCII, windows-1252, GB18030} x XML version {1.0, 1.1}
+//   x item kind {text, attribute value, CDATA section (= cdata on), comment, PI data, element name, attribute name}
+//   x character item (35; names: 5 non-ASCII letters) x offset of the item relative to the 512-unit writer buffers
+//   (512*m + d, m in {1,2}, d in -8..+8);
+//   thorough: x every ordered PAIR of adjacent items (33 x 33) at m = 1, d in -8..+8;
+//   and end to end (same trees built by a stylesheet through XalanTransformer) at m = 1, d in -4..+4.
 // Every produced byte string is re-parsed by expat and by libxml2 and compared with the event script that was fed in.
+// Oracle relaxations (stated): comment / PI data is compared after XML line-end normalisation (no escape exists there);
+// a control character inside a CDATA section may be refused with an error instead of splitting the section.
 //
 // usage: c04 <tier> <shard> <nshards>          (isolate.hpp protocol)
 //        c04 replay <encoded case>             (prints bytes, both parsers' verdicts, expected and parsed tree)
@@ -406,6 +412,13 @@ static bool prescan11(const std::string& in, const std::string& enc, std::string
             gbcp = 0x80 + (u[i + 2] - 0x81) * 10 + (u[i + 3] - 0x30);
         if (gb && c == 0x81 && i + 3 < u.size() && u[i + 1] == 0x36 && u[i + 2] == 0xA6 && u[i + 3] == 0x35) gbcp = 0x2028;
         if (gbcp >= 0x80 && gbcp <= 0x9F && gbcp != 0x85) { why = "XML 1.1: literal restricted character"; return false; }
+        if (gb && gbcp == 0 && c >= 0x81 && c <= 0xFE && i + 1 < u.size())
+        {
+            // any other GB18030 multi-byte sequence is copied as a whole (its trail bytes must not be taken for lead bytes)
+            const size_t len = (u[i + 1] >= 0x30 && u[i + 1] <= 0x39) ? 4 : 2;
+            for (size_t k = 0; k < len && i + k < u.size(); ++k) o.push_back(u[i + k]);
+            i += len - 1; continue;
+        }
         // line ends
         bool nel = false; size_t adv = 0;
         if ((u16 || latin1) && c == 0x85) { nel = true; adv = 0; }
